@@ -20,6 +20,7 @@ type fakeConsul struct {
 	srv      *http.Server
 	nextID   int
 	sessions map[string]int // session id -> node that created it
+	alive    map[string]bool // sessions that are alive without holding the lock key (made by the suite)
 	cur      string         // session holding the lock key
 	value    []byte         // value of the lock key
 }
@@ -66,6 +67,10 @@ func (c *fakeConsul) ServeHTTP(w http.ResponseWriter, r *http.Request) {
 		writeJSON(map[string]string{"ID": id})
 	case strings.HasPrefix(p, "/v1/session/renew/"):
 		id := strings.TrimPrefix(p, "/v1/session/renew/")
+		if c.alive[id] { // a live session that does not hold the key
+			writeJSON([]map[string]any{{"ID": id, "TTL": "1s"}})
+			return
+		}
 		if _, ok := c.sessions[id]; !ok || id != c.cur || s.holder == -1 {
 			http.NotFound(w, r) // the session is gone: the lease has expired
 			return
@@ -158,4 +163,20 @@ func (c *fakeConsul) ServeHTTP(w http.ResponseWriter, r *http.Request) {
 	default:
 		http.Error(w, "not implemented: "+p, http.StatusNotImplemented)
 	}
+}
+
+// strangerSession makes a live session for node k that does not hold the lock key: what a node is
+// handed when the key was taken over by another session between the old primary's last renewal
+// and the target's acquisition.
+func (c *fakeConsul) strangerSession(k int) string {
+	c.svc.mu.Lock()
+	defer c.svc.mu.Unlock()
+	c.nextID++
+	id := fmt.Sprintf("session-%d", c.nextID)
+	c.sessions[id] = k
+	if c.alive == nil {
+		c.alive = map[string]bool{}
+	}
+	c.alive[id] = true
+	return id
 }
